@@ -194,9 +194,18 @@ class ModelRun:
         return {(c['unit'], c['out'], c['time']): c for c in self.cells}
 
 
-def model_run(ctx, variant, entry, seed, world):
-    rep = ctx.model('C16.run', bool(variant[0]), bool(variant[1]), entry, seed_wire(seed), world_wire(world))
+def model_run_wire(ctx, variant, entry, seed_w, world_w):
+    """variant = (sharedSeed, globalChoice[, integer PriorPredictiveModel drew from a Generator seed | None])"""
+    if len(variant) > 2:
+        pg = None if variant[2] is None else int(variant[2])
+        rep = ctx.model('C16.run', bool(variant[0]), bool(variant[1]), pg, entry, seed_w, world_w)
+    else:
+        rep = ctx.model('C16.run', bool(variant[0]), bool(variant[1]), entry, seed_w, world_w)
     return ModelRun(rep)
+
+
+def model_run(ctx, variant, entry, seed, world):
+    return model_run_wire(ctx, variant, entry, seed_wire(seed), world_wire(world))
 
 
 # ----------------------------------------------------------------------------------------
